@@ -130,7 +130,7 @@ def gen_run(wd, idx, cfg, workers, simulate=None):
             f.write("INVARIANT %s\n" % inv)
         f.write("CHECK_DEADLOCK FALSE\n")
     extra = ["-simulate", "num=%d" % simulate[0], "-depth", str(simulate[1])] if simulate else []
-    return TlcRun(wd, mod + ".tla", mod + ".cfg", name=mod, workers=workers, mem="6g", timeout=3000, extra=extra)
+    return TlcRun(wd, mod + ".tla", mod + ".cfg", name=mod, workers=workers, mem="4g", timeout=3000, extra=extra)
 
 
 def schedules_of(run):
@@ -279,7 +279,7 @@ def record_and_validate(res, exe, wd, cases, prop, extra_traces=()):
         f.write("---- MODULE LT ----\nEXTENDS LoopTrace\nMCKnown == %s\n====\n" % tla_set(known_ids()))
     with open(os.path.join(wd, "LT.cfg"), "w") as f:
         f.write("SPECIFICATION Spec\nCONSTANTS\n  KnownIds <- MCKnown\nPOSTCONDITION Accepted\nCHECK_DEADLOCK FALSE\n")
-    runs = [TlcRun(wd, "LT.tla", "LT.cfg", env={"TRACE": t}, name="lt%d" % i, deque=True, mem="4g", timeout=3000) for i, t in enumerate(traces)]
+    runs = [TlcRun(wd, "LT.tla", "LT.cfg", env={"TRACE": t}, name="lt%d" % i, deque=True, mem="2g", timeout=3000) for i, t in enumerate(traces)]
     t0 = time.time()
     run_tlc_many(runs)
     log("[tlc] LoopTrace: %d processes, %.1fs" % (len(runs), time.time() - t0))
@@ -358,8 +358,8 @@ def startup_runs(res, exe, wd, tier):
         f.write("---- MODULE LT ----\nEXTENDS LoopTrace\nMCKnown == %s\n====\n" % tla_set(known_ids()))
     with open(os.path.join(wd, "LT.cfg"), "w") as f:
         f.write("SPECIFICATION Spec\nCONSTANTS\n  KnownIds <- MCKnown\nPOSTCONDITION Accepted\nCHECK_DEADLOCK FALSE\n")
-    sruns = [TlcRun(wd, "ST.tla", "ST.cfg", env={"TRACE": t}, name="st%d" % i, deque=True, mem="3g", timeout=1200) for i, t in enumerate(traces)]
-    lruns = [TlcRun(wd, "LT.tla", "LT.cfg", env={"TRACE": t}, name="fslt%d" % i, deque=True, mem="3g", timeout=1200) for i, t in enumerate(traces)]
+    sruns = [TlcRun(wd, "ST.tla", "ST.cfg", env={"TRACE": t}, name="st%d" % i, deque=True, mem="2g", timeout=1200) for i, t in enumerate(traces)]
+    lruns = [TlcRun(wd, "LT.tla", "LT.cfg", env={"TRACE": t}, name="fslt%d" % i, deque=True, mem="2g", timeout=1200) for i, t in enumerate(traces)]
     run_tlc_many(sruns + lruns)
     regs = [0] * 5
     subad, loopbad = [], []
